@@ -1,8 +1,27 @@
 // Package c12 checks property C12: the VM is total, bounded and memory-safe on every script.
 //
 // A Case is a script (plus an optional second script loaded below it, the way a verification script sits below an
-// invocation script), a gas limit and a base execution fee. The monitor loads it into a fresh VM with the production
-// opcode price table, single-steps it and checks every clause of the property after every step.
+// invocation script), a finite gas limit and a base execution fee. The monitor loads it into a fresh VM with the
+// production opcode price table (fee.Opcode), single-steps it (VM.Step) and checks after every step:
+//
+//   - no Go panic came out of Step; the run ends HALT or FAULT within the number of steps the price table allows
+//     (every opcode that can complete costs >= base fee, except RET which removes an invocation);
+//   - on HALT GasConsumed() <= limit;
+//   - after every instruction that completed (the VM enforces its limits per instruction, execute() in vm.go): the item
+//     count found by WALKING every evaluation stack, every static/local/argument slot and everything reachable from
+//     them (see walker) is <= 2048, VerifRefs() >= walk always and == walk as long as no cyclic structure has been
+//     built in this run; every reachable Integer fits 256-bit two's complement, every ByteString/Buffer is <= MaxSize;
+//     at most 1024 invocations; at most 16 nested TRY blocks per invocation (lower bound kept from executed TRY/ENDTRY);
+//   - for scripts accepted by scparser.IsScriptCorrect every executed offset is an instruction boundary according to
+//     an independent decoder (decode.go).
+//
+// FAULT is always acceptable; nothing is asserted about the state of a FAULTed VM.
+// An exception in flight (VM.uncaughtException) is neither on a stack nor in a slot: the VM does not count it and the
+// walker does not see it, consistently; it is counted again when a catch block receives it.
+//
+// Generators: "aware" (gen.go, model.go: instruction-aware, driven by an abstract model of stack/slots/compounds),
+// "mutant" (byte-level mutations of aware scripts, incl. retargeted jump/try operands), "raw" (bytes), "regress" (fixed
+// scripts). FuzzVM (fuzz_test.go) is the native byte-level target with the same monitor.
 package c12
 
 import (
@@ -130,7 +149,11 @@ var readingOperandDepth = map[opcode.Opcode]int{
 }
 
 // Monitor runs the case and returns the first violated clause (nil if none) together with the classification.
-func Monitor(c Case) (*Report, error) {
+func Monitor(c Case) (*Report, error) { return monitor(c, infraStepCap, infraWorkCap) }
+
+// monitor is Monitor with explicit infrastructure caps (the native fuzz target uses small ones: the Go fuzzing
+// coordinator declares a worker hung when one execution takes about a second).
+func monitor(c Case, stepCap, workCap int) (*Report, error) {
 	rep := &Report{Mutations: map[string]int{}}
 	if c.GasLimit < 0 {
 		return rep, fmt.Errorf("bad case: negative (= unlimited) gas limit %d is outside the property's domain", c.GasLimit)
@@ -256,7 +279,7 @@ func Monitor(c Case) (*Report, error) {
 			return rep, fmt.Errorf("the VM is about to execute step %d under gas limit %d datoshi (base fee %d picoGAS): more steps than the price table allows (%d), consumed so far %d",
 				rep.Steps+1, c.GasLimit, base, stepBound, v.GasConsumed())
 		}
-		if rep.Steps >= infraStepCap || work > infraWorkCap {
+		if rep.Steps >= stepCap || work > workCap {
 			rep.State = "CAPPED"
 			return rep, nil
 		}
